@@ -67,8 +67,29 @@ def encode_member(t, eq):
     return f"MCls {CID[t]}%N"
 
 
+def doc_applies(u_args, s_set):
+    """the documented applicability: the union mentions a configured class -- as a member, as the base of a NewType member or as
+    the class of a literal -- and is not a plain Optional[X] (exactly two members, one of them None), which is left to the default hook"""
+    if len(set(u_args)) == 2 and NoneType in u_args:
+        return False
+    for t in u_args:
+        if is_literal(t):
+            if any(lit.__class__ in s_set for lit in t.__args__):
+                return True
+        elif (get_newtype_base(t) or t) in s_set:
+            return True
+    return False
+
+
 def gen_union(rng):
     members = []
+    if rng.random() < 0.2:
+        # members that collapse onto one class once literals and NewTypes are normalised, next to None
+        x = rng.choice([str, int, bool, bytes])
+        pool = [x, Literal[tuple(v for v in LIT_POOL if v.__class__ is x)[:rng.randint(1, 2)]]] + [nt for nt in NEWTYPES if get_newtype_base(nt) is x]
+        members = [NoneType] + rng.sample(pool, rng.randint(2, len(pool)))
+        rng.shuffle(members)
+        return Union[tuple(members)]
     for _ in range(rng.randint(2, 5)):
         r = rng.random()
         if r < 0.45:
@@ -159,8 +180,10 @@ def check_c15(v: Verdict, t1_summary, n_unions):
         conv = make_converter(rng, s_members)
         try:
             hook = conv.get_structure_hook(u)
-        except Exception:
-            continue
+        except Exception as e:
+            if not doc_applies(list(u.__args__), set(s_members)):
+                continue
+            hook = e             # no hook at all for a union the strategy is documented to handle
         applies = getattr(hook, "__name__", "") == "structure_native_union"
         hist["unions"] += 1
         hist["applies"] += applies
@@ -171,6 +194,18 @@ def check_c15(v: Verdict, t1_summary, n_unions):
         S_coq = "[" + "; ".join(f"{CID[c]}%N" for c in s_members) + "]"
         cases.append(f"Bool.eqb (applies {S_coq} {U_coq}) {'true' if applies else 'false'}")
         meta.append({"union": repr(u), "configured": [c.__name__ for c in s_members], "check": "applies", "observed": applies})
+        want_applies = doc_applies(args, set(s_members))
+        hist["doc_applies"] = hist.get("doc_applies", 0) + want_applies
+        if want_applies and not applies:
+            # the strategy declined a union it is documented to handle: look for a value that should come back as it is
+            for val in PROBES:
+                if doc_rule(args, set(s_members), val) == ("pass",):
+                    obs = observe(conv, u, val)
+                    if obs != ("pass",):
+                        v.violation("union passthrough is not applied to a union containing configured classes: a value of an accepted class is not returned as it is",
+                                    {"lane": "PASS/C15", "union": repr(u), "configured": [c.__name__ for c in s_members], "value": repr(val),
+                                     "observed": repr(obs), "documented": "('pass',)", "hook": getattr(hook, "__qualname__", repr(hook))})
+                        break
         if not applies:
             continue
         # all rotations and a few random permutations of the members
